@@ -234,13 +234,18 @@ theorem C10_receiver (n : Node) (src dst i : Nat) (d : Dev) (hq : Quiet n.s i) (
       exact handleStart_oversize_quiet n src dst i pgn size npk j d hq hd hsrc h223 hj
   · intro j a buf hj ha hreq hb
     have hjl : j < n.slots.length := findIdx_lt _ _ _ hj
+    have htp : a.tp = true := by
+      obtain ⟨a', ha', hs⟩ := findIdx_get _ _ _ hj
+      rw [ha] at ha'; cases ha'
+      simp only [sessOf, Bool.and_eq_true] at hs; exact hs.1.1.2
     refine ⟨?_, ?_⟩
     · intro hseq hdone
       rw [rxFrame_dt n src dst buf hsrc hdst hb, handleData_last_quiet n src dst i j d a buf hq hd hsrc hi hj ha hseq hdone]
       simp only [hreq, ↓reduceIte, finish]
       unfold deliver
-      simp only [Node.pushes_slots, Node.setSlot, List.getElem?_set_self hjl, List.set_set]
-      simp [Node.pushes, dtSlot]
+      simp only [Node.pushes_slots, Node.setSlot, List.getElem?_set_self hjl]
+      rw [systemMessage_tp _ _ (show (dtSlot a buf (millis32 n.s.now)).tp = true from htp)]
+      simp [Node.pushes, dtSlot, deliveryOf]
     · intro hseq
       rw [rxFrame_dt n src dst buf hsrc hdst hb, handleData_fault_quiet n src dst i j 8 d a buf hq hd hsrc hi hj ha hseq]
       simp only [hreq, ↓reduceIte, finish]
@@ -295,6 +300,10 @@ theorem C10_receiver_bam (n : Node) (src : Nat) (hsrc : src < 256) :
     · simp [sessOf, bamSlot, startSlot]
   · intro j a buf hj ha hreq hb
     have hjl : j < n.slots.length := findIdx_lt _ _ _ hj
+    have htp : a.tp = true := by
+      obtain ⟨a', ha', hs⟩ := findIdx_get _ _ _ hj
+      rw [ha] at ha'; cases ha'
+      simp only [sessOf, Bool.and_eq_true] at hs; exact hs.1.1.2
     have hrx := rxFrame_dt n src 255 buf hsrc (by omega) hb
     rw [handleData_silent n src 255 j 8 a buf hj ha hreq] at hrx
     refine ⟨?_, ?_, ?_⟩
@@ -302,7 +311,10 @@ theorem C10_receiver_bam (n : Node) (src : Nat) (hsrc : src < 256) :
       rw [hrx, if_pos hseq, if_pos hdone]
       simp only [finish]
       unfold deliver
-      simp [Node.setSlot, List.getElem?_set_self hjl]
+      simp only [Node.setSlot, List.getElem?_set_self hjl]
+      rw [systemMessage_tp _ _ (show ({ a with data := copyBuf a.data 1 8 buf, lastFrame := buf.getD 0 0,
+                                               msgTime := millis32 n.s.now } : Slot).tp = true from htp)]
+      simp [deliveryOf]
     · intro hseq hmore
       rw [hrx, if_pos hseq, if_neg (by omega)]
       rfl
@@ -312,6 +324,44 @@ theorem C10_receiver_bam (n : Node) (src : Nat) (hsrc : src < 256) :
 
 example : (∃ a ∈ exNode.slots, a.free = true) ∧ ((checkKnown 126996).1 = true ∨ ¬ exNode.onlyKnown = true) :=
   ⟨⟨{}, by simp [exNode], rfl⟩, Or.inl (by decide)⟩
+
+/-- **An open transfer keeps the device polled.** `SendPendingInformation` looks at a device only while its
+`HasPendingInformation` flag is set, and the flag is recomputed from the pending timers whenever another pending item of the
+device is cleared. While a transfer is open (`NextDTSendTime` enabled) the flag stays set whatever happens to the other items:
+after `SendProductInformation` / `SendConfigurationInformation` - sent (its pending timer is cleared and the flag recomputed)
+or refused by the driver (retry armed) - and after the bare `UpdateHasPendingInformation()`; the transfer's timer and message are
+untouched. So an ISO request answered in the middle of a BAM, or a retried answer, cannot stop the pacing or the timeout
+(`C10_bam_pacing`, `C10_timeouts`). -/
+theorem C10_open_transfer_stays_polled (n : Node) (i : Nat) (c : Msg) (h : (n.tp i).timer.isEnabled n.s.flavor = true) :
+    ((updateHasPending n i).tp i).hasPending = true ∧
+    ((sendProductInformation n i).tp i).hasPending = true ∧ ((sendProductInformation n i).tp i).timer = (n.tp i).timer ∧
+      ((sendProductInformation n i).tp i).pend = (n.tp i).pend ∧ ((sendProductInformation n i).tp i).nextSeq = (n.tp i).nextSeq ∧
+    ((sendConfigurationInformation n i c).tp i).hasPending = true ∧ ((sendConfigurationInformation n i c).tp i).timer = (n.tp i).timer ∧
+      ((sendConfigurationInformation n i c).tp i).pend = (n.tp i).pend ∧
+      ((sendConfigurationInformation n i c).tp i).nextSeq = (n.tp i).nextSeq := by
+  have key : ∀ (m : Msg) (x : InfoDev) (y : InfoDev),
+      let r := emit n m i
+      let z := if r.2 then updateHasPending (r.1.setInfo i x) i else (r.1.setInfo i y).setTp i { r.1.tp i with hasPending := true }
+      (z.tp i).hasPending = true ∧ (z.tp i).timer = (n.tp i).timer ∧ (z.tp i).pend = (n.tp i).pend ∧ (z.tp i).nextSeq = (n.tp i).nextSeq := by
+    intro m x y
+    have ht : (emit n m i).1.tp = n.tp := emit_tp n m i
+    have hf : (emit n m i).1.s.flavor = n.s.flavor := (emit_clock n m i).2
+    simp only []
+    by_cases hr : (emit n m i).2 = true
+    · rw [if_pos hr]
+      simp [updateHasPending, Node.setTp, Node.setInfo, ht, hf, h]
+    · rw [if_neg hr]
+      simp [Node.setTp, Node.setInfo, ht]
+  have hp : ((sendProductInformation n i).tp i).hasPending = true ∧ ((sendProductInformation n i).tp i).timer = (n.tp i).timer ∧
+      ((sendProductInformation n i).tp i).pend = (n.tp i).pend ∧ ((sendProductInformation n i).tp i).nextSeq = (n.tp i).nextSeq :=
+    key _ _ _
+  have hc : ((sendConfigurationInformation n i c).tp i).hasPending = true ∧
+      ((sendConfigurationInformation n i c).tp i).timer = (n.tp i).timer ∧
+      ((sendConfigurationInformation n i c).tp i).pend = (n.tp i).pend ∧
+      ((sendConfigurationInformation n i c).tp i).nextSeq = (n.tp i).nextSeq := key _ _ _
+  exact ⟨by simp [updateHasPending, Node.setTp, h], hp.1, hp.2.1, hp.2.2.1, hp.2.2.2, hc.1, hc.2.1, hc.2.2.1, hc.2.2.2⟩
+
+example : (((startSendTP exNode exMsg 0).1.tp 0).timer.isEnabled (startSendTP exNode exMsg 0).1.s.flavor) = true := by decide
 
 /-! ## timeouts -/
 
@@ -415,6 +465,7 @@ theorem C10_end_to_end_partial (a b : Node) (da db : Dev) (m : Msg) (ds : List (
     (hda : a.s.devs = [da]) (hdb : b.s.devs = [db]) (hqa : Quiet a.s 0) (hqb : Quiet b.s 0)
     (haIdle : (a.tp 0).pend.pgn = 0) (haSent : a.s.drv.sent = []) (haRx : a.rxq = [])
     (hbIdle : (b.tp 0).hasPending = false) (hbSent : b.s.drv.sent = []) (hbRx : b.rxq = []) (hbOut : b.out = [])
+    (haInfo : InfoIdle a 0) (hbInfo : InfoIdle b 0)
     (hbFree : ∃ sl ∈ b.slots, sl.free = true) (hknown : (checkKnown m.pgn).1 = true ∨ ¬ b.onlyKnown = true)
     (htp : m.tp = true) (h9 : 9 ≤ m.len) (h223 : m.len ≤ 223) (hdata : m.len ≤ m.data.length)
     (hdst : m.dst = db.source) (hlow : m.pgn &&& 0xff = 0) (hp0 : m.pgn ≠ 0) (hp24 : m.pgn < 2^24)
@@ -440,7 +491,7 @@ theorem C10_end_to_end_partial (a b : Node) (da db : Dev) (m : Msg) (ds : List (
   refine ⟨rfl, ?_⟩
   obtain ⟨j, a0, hj, ha0⟩ := start_slot_exists b.slots m.pgn da.source db.source hbFree
   have hL : LinkHyp a b da db (pendMsg m da) j (b.slots.map (freeSess da.source db.source)) a0 :=
-    ⟨hda, hdb, hqa, hqb, hbIdle, hdst, h9, h223, hdata, hp24, hp0, hknown, rfl, hj, ha0⟩
+    ⟨hda, hdb, hqa, hqb, hbIdle, haInfo, hbInfo, hdst, h9, h223, hdata, hp24, hp0, hknown, rfl, hj, ha0⟩
   have hb : b = b.upd b.tp b.slots [] [] [] := by
     have := (upd_self b).symm
     rw [hbOut, hbSent, hbRx] at this; exact this
@@ -482,13 +533,13 @@ theorem C10_end_to_end_partial (a b : Node) (da db : Dev) (m : Msg) (ds : List (
 example : ∃ (a b : Node) (da db : Dev) (m : Msg) (ds : List (Nat × Nat)), 33 ≤ ds.length ∧ (∀ p, ds.head? = some p → p.2 < 50) ∧
     (∀ p ∈ ds, p.2 < 100) ∧ a.s.now + totalA ds + 100 < M64 ∧ a.s.devs = [da] ∧ b.s.devs = [db] ∧ Quiet a.s 0 ∧ Quiet b.s 0 ∧
     (a.tp 0).pend.pgn = 0 ∧ a.s.drv.sent = [] ∧ a.rxq = [] ∧ (b.tp 0).hasPending = false ∧ b.s.drv.sent = [] ∧ b.rxq = [] ∧
-    b.out = [] ∧ (∃ sl ∈ b.slots, sl.free = true) ∧ ((checkKnown m.pgn).1 = true ∨ ¬ b.onlyKnown = true) ∧
+    b.out = [] ∧ InfoIdle a 0 ∧ InfoIdle b 0 ∧ (∃ sl ∈ b.slots, sl.free = true) ∧ ((checkKnown m.pgn).1 = true ∨ ¬ b.onlyKnown = true) ∧
     m.tp = true ∧ 9 ≤ m.len ∧ m.len ≤ 223 ∧ m.len ≤ m.data.length ∧ m.dst = db.source ∧ m.pgn &&& 0xff = 0 ∧ m.pgn ≠ 0 ∧
     m.pgn < 2^24 ∧ n2kToCanId m.prio m.pgn da.source m.dst ≠ 0 := by
   refine ⟨exNode, { exNode with s := { exSt with devs := [{ exDev with source := 30 }] } }, exDev, { exDev with source := 30 }, exMsg,
     List.replicate 33 (7, 20), by decide, by decide, by decide, by decide,
     rfl, rfl, exQuiet, ⟨⟨_, rfl, by decide, by decide⟩, rfl, rfl, rfl, rfl, rfl, by decide, by decide⟩, by decide, rfl, rfl,
-    by decide, rfl, rfl, rfl, ⟨{}, by simp [exNode], rfl⟩, by decide, by decide, by decide, by decide, by decide, by decide, by decide,
+    by decide, rfl, rfl, rfl, ⟨rfl, rfl⟩, ⟨rfl, rfl⟩, ⟨{}, by simp [exNode], rfl⟩, by decide, by decide, by decide, by decide, by decide, by decide, by decide,
     by decide, by decide, by decide⟩
 
 /-- **End to end (BAM), partial.** Node A (one device) hands a transport-flagged message of 9..223 bytes for the global
@@ -503,6 +554,7 @@ theorem C10_end_to_end_bam_partial (a b : Node) (da db : Dev) (m : Msg) (ds : Li
     (hda : a.s.devs = [da]) (hdb : b.s.devs = [db]) (hqa : Quiet a.s 0) (hqb : Quiet b.s 0)
     (haIdle : (a.tp 0).pend.pgn = 0) (haSent : a.s.drv.sent = []) (haRx : a.rxq = [])
     (hbIdle : (b.tp 0).hasPending = false) (hbSent : b.s.drv.sent = []) (hbRx : b.rxq = []) (hbOut : b.out = [])
+    (haInfo : InfoIdle a 0) (hbInfo : InfoIdle b 0)
     (hbFree : ∃ sl ∈ b.slots, sl.free = true) (hbInv : ∀ sl ∈ b.slots, sl.free = true → sl.reqCTS = 0)
     (hknown : (checkKnown m.pgn).1 = true ∨ ¬ b.onlyKnown = true)
     (htp : m.tp = true) (h9 : 9 ≤ m.len) (h223 : m.len ≤ 223) (hdata : m.len ≤ m.data.length)
@@ -526,7 +578,7 @@ theorem C10_end_to_end_bam_partial (a b : Node) (da db : Dev) (m : Msg) (ds : Li
   obtain ⟨j, a0, hj, ha0⟩ := start_slot_exists b.slots m.pgn da.source 255 hbFree
   have hreq := found_slot_silent b.slots m.pgn da.source j a0 hbInv hj ha0
   have hL : BamHyp a b da db (pendMsg m da) j (b.slots.map (freeSess da.source 255)) a0 :=
-    ⟨hda, hdb, hqa, hqb, hbIdle, hdst, h9, h223, hdata, hp24, hp0, hknown, rfl, hj, ha0, hreq⟩
+    ⟨hda, hdb, hqa, hqb, hbIdle, haInfo, hbInfo, hdst, h9, h223, hdata, hp24, hp0, hknown, rfl, hj, ha0, hreq⟩
   have hb : b = b.upd b.tp b.slots [] [] [] := by
     have := (upd_self b).symm
     rw [hbOut, hbSent, hbRx] at this; exact this
@@ -563,14 +615,14 @@ theorem C10_end_to_end_bam_partial (a b : Node) (da db : Dev) (m : Msg) (ds : Li
 example : ∃ (a b : Node) (da db : Dev) (m : Msg) (ds : List (Nat × Nat)), 33 ≤ ds.length ∧ (∀ p ∈ ds, 51 ≤ p.2 ∧ p.2 < INT32_MAX) ∧
     a.s.now + totalA ds + 100 < M64 ∧ a.s.devs = [da] ∧ b.s.devs = [db] ∧ Quiet a.s 0 ∧ Quiet b.s 0 ∧
     (a.tp 0).pend.pgn = 0 ∧ a.s.drv.sent = [] ∧ a.rxq = [] ∧ (b.tp 0).hasPending = false ∧ b.s.drv.sent = [] ∧ b.rxq = [] ∧
-    b.out = [] ∧ (∃ sl ∈ b.slots, sl.free = true) ∧ (∀ sl ∈ b.slots, sl.free = true → sl.reqCTS = 0) ∧
+    b.out = [] ∧ InfoIdle a 0 ∧ InfoIdle b 0 ∧ (∃ sl ∈ b.slots, sl.free = true) ∧ (∀ sl ∈ b.slots, sl.free = true → sl.reqCTS = 0) ∧
     ((checkKnown m.pgn).1 = true ∨ ¬ b.onlyKnown = true) ∧
     m.tp = true ∧ 9 ≤ m.len ∧ m.len ≤ 223 ∧ m.len ≤ m.data.length ∧ m.dst = 255 ∧ m.pgn &&& 0xff = 0 ∧ m.pgn ≠ 0 ∧
     m.pgn < 2^24 ∧ n2kToCanId m.prio m.pgn da.source m.dst ≠ 0 := by
   refine ⟨exNode, { exNode with s := { exSt with devs := [{ exDev with source := 30 }] } }, exDev, { exDev with source := 30 },
     { exMsg with dst := 255 }, List.replicate 33 (7, 60), by decide, by decide, by decide,
     rfl, rfl, exQuiet, ⟨⟨_, rfl, by decide, by decide⟩, rfl, rfl, rfl, rfl, rfl, by decide, by decide⟩, rfl, rfl,
-    rfl, rfl, rfl, rfl, rfl, ⟨{}, by simp [exNode], rfl⟩, ?_, by decide, by decide, by decide, by decide, by decide, by decide,
+    rfl, rfl, rfl, rfl, rfl, ⟨rfl, rfl⟩, ⟨rfl, rfl⟩, ⟨{}, by simp [exNode], rfl⟩, ?_, by decide, by decide, by decide, by decide, by decide, by decide,
     by decide, by decide, by decide, by decide⟩
   intro sl hsl _
   simp [exNode] at hsl
